@@ -9,11 +9,16 @@ ID = "C09"
 LEAN_MODULE = "BB.Properties.C09"
 QUICK_N = 110
 THOROUGH_N = 2200
-LEVEL_NOTE = ("partial: equality at creation is proved in Lean; independence of the Python objects (aliasing) is decided by the "
-              "refinement check against the value-semantics model. Trusted: Lean kernel + propext/Classical.choice/Quot.sound, "
-              "the py2lean translator, the correspondence harness; numpy/CPython modelled not verified")
-TECHNIQUE = ("Lean 4 proof (derived object equals its source at creation) about an executable value-semantics model + "
-             "refinement check of the implementation against that model over the derive x mutate matrix")
+LEVEL_NOTE = ("proved in Lean: (values) a derived object equals its source at creation; (references, BB.Model.Heap) for every history of "
+              "calls whose programs obey the checked ownership discipline, calls on other objects leave an object's whole observable "
+              "tree unchanged (heap_separation, heap_independent, heap_derive_leaves_sources). Decided by correspondence, not proved: "
+              "that the method programs of BB.Model.Heap describe what the Python methods allocate, copy and write (same sharing "
+              "between any two user-held objects as an id() walk of the real objects finds, model never faults), and the refinement "
+              "of the implementation by the value model over the derive x mutate matrix. Trusted: Lean kernel + propext/Quot.sound/"
+              "Classical.choice, py2lean, the harness incl. its object walker; CPython's object model (deepcopy, list.copy, dict.copy) "
+              "modelled not verified")
+TECHNIQUE = ("Lean 4 proofs about a value model and about a reference-level ownership model (frame / separation invariant over all "
+             "histories) + correspondence of both models with the implementation (results, and id()-level sharing)")
 RULE = ("one chain of objects per case: blueprint b -> b.copy(), b + b2 -> element e (addBluePrint) -> e.copy() -> sequence s "
         "(addElement, addSubSequence) -> s.copy(), s + s2, makeVaryingSequence(e), makeLinearlyVaryingSequence(e), "
         "repeatAndVarySequence(s); then 4-9 public mutations, each on a randomly chosen object of the chain (source or "
